@@ -92,6 +92,47 @@ func storeDominatesReads(t *ssa.Store) bool {
 	return true
 }
 
+// cellStoreDominatesUses: t stores into a scalar cell (an Alloc used only by loads, stores and closures) and every
+// other use of that cell is dominated by t.
+func cellStoreDominatesUses(t *ssa.Store) bool {
+	al, ok := t.Addr.(*ssa.Alloc)
+	if !ok || al.Referrers() == nil || !isCellAlloc(al) {
+		return false
+	}
+	tb := t.Block()
+	for _, r := range *al.Referrers() {
+		if r == ssa.Instruction(t) {
+			continue
+		}
+		if _, isDbg := r.(*ssa.DebugRef); isDbg {
+			continue
+		}
+		rb := r.Block()
+		if tb == nil || rb == nil {
+			return false
+		}
+		if tb == rb {
+			ti, ri := -1, -1
+			for i, x := range tb.Instrs {
+				if x == ssa.Instruction(t) {
+					ti = i
+				}
+				if x == r {
+					ri = i
+				}
+			}
+			if !(ti >= 0 && ri >= 0 && ti < ri) {
+				return false
+			}
+			continue
+		}
+		if !tb.Dominates(rb) {
+			return false
+		}
+	}
+	return true
+}
+
 func (in *Inst) cellDepth(c *Symbol) int {
 	if d, ok := in.X.cellLoopDepth[c]; ok {
 		return d
@@ -190,6 +231,19 @@ func (in *Inst) instr(instr ssa.Instruction, g *Term, b *ssa.BasicBlock) {
 		in.vals[t] = S.mkOp("closure", TRef, args...)
 	case *ssa.MakeInterface:
 		in.vals[t] = u(t.X)
+		// a value boxed into an interface declared in this module keeps its dynamic type, so that a later method call on
+		// the interface can be resolved to the method of that type (an unexported strategy interface with two
+		// implementations chosen once)
+		if nt, ok := t.Type().(*types.Named); ok && nt.Obj() != nil && nt.Obj().Pkg() != nil && strings.HasPrefix(nt.Obj().Pkg().Path(), modPath) {
+			if it, isI := nt.Underlying().(*types.Interface); isI && it.NumMethods() > 0 {
+				key := "iface:" + t.X.Type().String()
+				if in.X.ifaceTypes == nil {
+					in.X.ifaceTypes = map[string]types.Type{}
+				}
+				in.X.ifaceTypes[key] = t.X.Type()
+				in.vals[t] = S.mkOp(key, TRef, u(t.X))
+			}
+		}
 	case *ssa.ChangeType:
 		in.vals[t] = u(t.X)
 	case *ssa.ChangeInterface:
@@ -273,9 +327,17 @@ func (in *Inst) instr(instr ssa.Instruction, g *Term, b *ssa.BasicBlock) {
 		if in.Parent != nil {
 			for i := len(in.deferEvs) - 1; i >= 0; i-- {
 				d := in.deferEvs[i]
+				dg := in.X.S.Canon(in.X.S.And(g, d.Guard))
+				// a deferred closure of this module (`defer func() { _ = w.Close() }()`) runs here: its body is inlined
+				// like any other call, reading the captured variables as they are NOW
+				if d.Closure != nil && d.StaticCallee != nil && inModule(d.StaticCallee) && d.StaticCallee.Blocks != nil &&
+					in.depth < in.X.Cfg.MaxDepth && !in.onStack(d.StaticCallee) {
+					in.inline(d.StaticCallee, d.Args, d.Closure, dg, nil)
+					continue
+				}
 				ce := *d
 				ce.Kind = "call"
-				ce.Guard = in.X.S.Canon(in.X.S.And(g, d.Guard))
+				ce.Guard = dg
 				ce.Res = nil
 				in.emit(&ce)
 			}
@@ -553,6 +615,11 @@ func (in *Inst) store(t *ssa.Store, g *Term, b *ssa.BasicBlock) {
 		if old != nil && g != S.True && storeDominatesReads(t) {
 			old = nil
 		}
+		// ... and the first store into a captured scalar local that every other use of it comes after (the spill of a
+		// parameter that a closure captures)
+		if old != nil && g != S.True && cellStoreDominatesUses(t) {
+			old = nil
+		}
 		if old == nil || g == S.True {
 			in.X.cellCur[addr.Sym] = val
 		} else {
@@ -730,6 +797,11 @@ func (in *Inst) call(v ssa.Value, c *ssa.CallCommon, kind string, g *Term, b *ss
 			}
 		}
 	}
+	if kind == "call" && c.IsInvoke() && recv != nil {
+		if r, ok := in.devirtualize(recv, c, args, g, v); ok {
+			return r
+		}
+	}
 	if kind == "call" && c.IsInvoke() && in.X.Cfg.PureInvoke[c.Method.Name()] {
 		return S.mkOp("call:"+name, resTy, append([]*Term{recv}, args...)...)
 	}
@@ -770,6 +842,67 @@ func (in *Inst) call(v ssa.Value, c *ssa.CallCommon, kind string, g *Term, b *ss
 		}
 	}
 	return r
+}
+
+// devirtualize resolves a method call on an interface value whose dynamic type is known on every path (a selection
+// over values boxed by MakeInterface into an interface of this module): the method of each dynamic type is inlined under
+// the condition that selects it, and the results are selected likewise.
+func (in *Inst) devirtualize(recv *Term, c *ssa.CallCommon, args []*Term, g *Term, v ssa.Value) (*Term, bool) {
+	S := in.X.S
+	type leaf struct {
+		cond *Term
+		t    *Term
+	}
+	var leaves []leaf
+	okAll := true
+	var flat func(t, cond *Term)
+	flat = func(t, cond *Term) {
+		if !okAll || len(leaves) > 4 {
+			okAll = false
+			return
+		}
+		if t.Op == "ite" {
+			flat(t.Args[1], S.And(cond, t.Args[0]))
+			flat(t.Args[2], S.And(cond, S.Not(t.Args[0])))
+			return
+		}
+		if !strings.HasPrefix(t.Op, "iface:") || in.X.ifaceTypes[t.Op] == nil {
+			okAll = false
+			return
+		}
+		leaves = append(leaves, leaf{cond, t})
+	}
+	flat(recv, S.True)
+	if !okAll || len(leaves) == 0 {
+		return nil, false
+	}
+	var fns []*ssa.Function
+	for _, lf := range leaves {
+		fn := in.X.P.SSA.LookupMethod(in.X.ifaceTypes[lf.t.Op], c.Method.Pkg(), c.Method.Name())
+		if fn == nil || !inModule(fn) || fn.Blocks == nil || in.onStack(fn) || in.depth >= in.X.Cfg.MaxDepth {
+			return nil, false
+		}
+		if in.X.Cfg.Opaque != nil {
+			if opq, _ := in.X.Cfg.Opaque(fn); opq {
+				return nil, false
+			}
+		}
+		fns = append(fns, fn)
+	}
+	var cases []muxCase
+	var resTy TyClass = TOther
+	if v != nil {
+		resTy = tyClass(v.Type())
+	}
+	for i, lf := range leaves {
+		cg := S.Canon(S.And(g, lf.cond))
+		r := in.inline(fns[i], append([]*Term{lf.t.Args[0]}, args...), nil, cg, v)
+		cases = append(cases, muxCase{lf.cond, r})
+	}
+	if len(cases) == 1 {
+		return cases[0].V, true
+	}
+	return S.Mux(cases, resTy), true
 }
 
 func shortName(n string) string {
